@@ -24,8 +24,11 @@ TRUSTED_BASE = [
     "axioms of every property theorem ⊆ {propext, Classical.choice, Quot.sound} (printed by Rbacx/Audit.lean on every run)",
     "hand-written model lean/Rbacx/Model/*.lean, tied to /repo by the correspondence harness (differential, this run) and harness/extract.py",
     "oracles computed by the harness without calling rbacx: CPython str()/float()/datetime parsing, json, hashlib",
-    "where a check uses the source-to-Lean translation (C03, C17): harness/pytolean.py and the meaning of Python's operations in "
-    "lean/Rbacx/Model/PyLib.lean, both validated against CPython on every run (Run/SrcEval.lean)",
+    "where a check uses the source-to-Lean translation (C02, C03, C17): harness/pytolean.py and the meaning of Python's operations in "
+    "lean/Rbacx/Model/PyLib.lean, both validated against CPython on every run (Run/SrcEval.lean, Run/SrcEvalFrag.lean); for the translated "
+    "FRAGMENTS of policy.evaluate / policyset.decide (C02) also the fragment designation in pytolean.py (which statement range, which "
+    "variables are inputs/outputs) — the same designation builds the Python function the translation is compared with — and, by hand, "
+    "what surrounds the fragments: variable initialisation, rule applicability (match_actions/match_resource/eval_condition), exceptions",
 ]
 
 
